@@ -1,8 +1,10 @@
+pub mod c02;
 pub mod c03;
 pub mod c04;
 pub mod c05;
 pub mod c07;
 pub mod c08;
+pub mod c09;
 pub mod c11;
 pub mod c13;
 pub mod c14;
@@ -13,12 +15,14 @@ use serde_json::Value as J;
 /// dispatch: run the check for ctx.prop (or replay one case of it)
 pub fn run(ctx: &Ctx, replay: Option<&J>) -> Option<CheckResult> {
     Some(match ctx.prop.as_str() {
+        "C02" => c02::run(ctx, replay),
         "C03" => c03::run(ctx, replay),
         "C04" => c04::run(ctx, replay),
         "C05" => c05::run(ctx, replay, false),
         "C06" => c05::run(ctx, replay, true),
         "C07" => c07::run(ctx, replay),
         "C08" => c08::run(ctx, replay),
+        "C09" => c09::run(ctx, replay),
         "C11" => c11::run(ctx, replay),
         "C13" => c13::run(ctx, replay),
         "C14" => c14::run(ctx, replay),
